@@ -365,6 +365,13 @@ func (r *Run) compareFeed(fi int, f *Collector, evs []sgbucket.FeedEvent) {
 					props = append(props, "C05")
 				}
 			}
+			for cj := range w.Model.Colls {
+				if cj != e.C && !w.Model.Colls[cj].Dropped {
+					if o := w.Model.Get(cj, e.Key); o.Present && len(eventVsState(got[is[0]], St{Present: true, Body: o.Body, X: o.X, Cas: e.St.Cas, Exp: e.St.Exp, Rev: e.St.Rev}, collID(e.C), f.Cfg.KeysOnly, nil)) == 0 {
+						props = append(props, "C11") // body / xattrs are those of the same key in another collection
+					}
+				}
+			}
 			r.Devs = append(r.Devs, Deviation{Clause: "event.faithful", Props: props, Step: e.Step,
 				Msg: fmt.Sprintf("feed %d (%+v): event for the %s of %s/%q at step %d differs from the document it describes: %s", fi, f.Cfg, e.OpK, w.Cfg.Colls[e.C], e.Key, e.Step, strings.Join(diffs, "; ")),
 				Sig: "event.faithful|" + e.OpK + "|" + firstWord(diffs[0])})
